@@ -454,6 +454,8 @@ def r14_6(ctx):
 def run(ctx):
     from .sweep import r14_9 as _r14_9
     _r14_9(ctx)
+    from .sweep import r14_10 as _r14_10
+    _r14_10(ctx)
     # free lists, live set and arena list belong to one heap object (and are re-created by its constructor, which
     # is how a forked child gets an empty heap)
     from .generic import per_instance_state
@@ -473,6 +475,7 @@ def run(ctx):
 
 _H = 'billiard/heap.py'
 MUTANTS = [
+    ('absorbed-block-stays-in-its-bucket', 'billiard/heap.py', "        seq.remove(block)\n        if not seq:\n", "        if not seq:\n", 'R14.10'),
     ('pending-frees-drained-after-the-search', _H, "        i = bisect.bisect_left(self._lengths, size)\n        if i == len(self._lengths):\n",
      "        i = bisect.bisect_left(self._lengths, size)\n        if i == len(self._lengths) and self._pending_free_blocks:\n            self._free_pending_blocks()\n        if i == len(self._lengths):\n", 'R14.6'),
     ('free-list-index-shared-by-all-heaps', _H, "    _alignment = 8\n\n    def __init__(self, size=mmap.PAGESIZE):\n        self._lastpid = os.getpid()\n        self._lock = threading.Lock()\n        self._size = size\n        self._lengths = []\n        self._len_to_seq = {}\n",
